@@ -24,16 +24,16 @@ func emitContextCode(repo string) (string, error) {
 			"*net/http.Cookie":                    "Lib.Cookie",
 		},
 		lib: map[string]string{
-			"strconv.Atoi":                "Lib.strconv_Atoi",
-			"strconv.ParseInt":            "Lib.strconv_ParseInt",
-			"strconv.ParseBool":           "Lib.strconv_ParseBool",
-			"strings.TrimSpace":           "Lib.strings_TrimSpace",
-			"strings.LastIndex":           "Lib.strings_LastIndex",
-			"net/url.QueryUnescape":       "Lib.url_QueryUnescape",
-			"(*net/url.URL).Query":        "Lib.URL_Query",
-			"(net/url.Values).Get":        "Lib.Values_Get",
-			"(net/http.Header).Get":       "Lib.Header_Get",
-			"(*net/http.Request).Cookie":  "Lib.Request_Cookie",
+			"strconv.Atoi":               "Lib.strconv_Atoi",
+			"strconv.ParseInt":           "Lib.strconv_ParseInt",
+			"strconv.ParseBool":          "Lib.strconv_ParseBool",
+			"strings.TrimSpace":          "Lib.strings_TrimSpace",
+			"strings.LastIndex":          "Lib.strings_LastIndex",
+			"net/url.QueryUnescape":      "Lib.url_QueryUnescape",
+			"(*net/url.URL).Query":       "Lib.URL_Query",
+			"(net/url.Values).Get":       "Lib.Values_Get",
+			"(net/http.Header).Get":      "Lib.Header_Get",
+			"(*net/http.Request).Cookie": "Lib.Request_Cookie",
 		},
 		libFields: map[string]string{
 			"net/http.Request.URL":        "Lib.Request_URL",
